@@ -13,12 +13,52 @@ mod gen;
 mod ops;
 
 use std::io::{BufRead, Write};
+use std::sync::atomic::{AtomicU64, Ordering};
+use std::sync::{Arc, Mutex};
 
-fn observe_threaded(c: &mut ops::Case, prev: &mut u32, first: &mut bool, r: &mut gen::Rng) -> String {
+/// Seconds without progress after which a call is declared hung (the slowest legitimate call, a 400-character
+/// string through the quadratic parser, takes well under a millisecond).
+const HANG_SECS: u64 = 20;
+
+/// What a worker is doing right now, for the watchdog.
+struct Slot { counter: AtomicU64, current: Mutex<String> }
+
+/// Declares a hang if some slot's counter does not move for HANG_SECS while it has a current case: prints
+/// `<case> => HANG` lines on stdout and ends the process with exit code 3.
+fn watchdog(slots: Vec<Arc<Slot>>, done: Arc<AtomicU64>) {
+    std::thread::spawn(move || {
+        let mut last: Vec<(u64, u64)> = slots.iter().map(|_| (u64::MAX, 0)).collect();   // (counter, seconds unchanged)
+        loop {
+            std::thread::sleep(std::time::Duration::from_secs(1));
+            if done.load(Ordering::SeqCst) != 0 { return; }
+            let mut hung = Vec::new();
+            for (i, sl) in slots.iter().enumerate() {
+                let c = sl.counter.load(Ordering::SeqCst);
+                if c == last[i].0 { last[i].1 += 1; } else { last[i] = (c, 0); }
+                if last[i].1 >= HANG_SECS {
+                    let cur = sl.current.lock().map(|g| g.clone()).unwrap_or_default();
+                    if !cur.is_empty() { hung.push(cur); }
+                }
+            }
+            if !hung.is_empty() {
+                for h in hung { println!("{} => HANG", h); }
+                let _ = std::io::stdout().flush();
+                std::process::exit(3);
+            }
+        }
+    });
+}
+
+fn observe_threaded(c: &mut ops::Case, prev: &mut u32, first: &mut bool, r: &mut gen::Rng, slot: &Slot) -> String {
     if c.flags_in == 0xffff {
         c.flags_in = if *first { *first = false; gen::flags_in(r) } else { *prev };
     }
-    match ops::run(c) {
+    if let Ok(mut g) = slot.current.lock() { *g = c.show(); }
+    slot.counter.fetch_add(1, Ordering::SeqCst);
+    let outcome = ops::run(c);
+    if let Ok(mut g) = slot.current.lock() { g.clear(); }
+    slot.counter.fetch_add(1, Ordering::SeqCst);
+    match outcome {
         ops::Outcome::Ok(res, st) => {
             *prev = st;
             let mut s = c.show();
@@ -56,9 +96,13 @@ fn main() {
             let threads: usize = args.get(6).map(|s| s.parse().expect("threads")).unwrap_or(1);
             std::fs::create_dir_all(&dir).unwrap();
             let mut hs = Vec::new();
+            let slots: Vec<Arc<Slot>> = (0..threads).map(|_| Arc::new(Slot { counter: AtomicU64::new(0), current: Mutex::new(String::new()) })).collect();
+            let done = Arc::new(AtomicU64::new(0));
+            watchdog(slots.clone(), done.clone());
             for t in 0..threads {
                 let id = id.clone();
                 let dir = dir.clone();
+                let slot = slots[t].clone();
                 hs.push(std::thread::Builder::new().stack_size(64 << 20).spawn(move || {
                     let mut r = gen::Rng(seed.wrapping_mul(0x9E3779B97F4A7C15) ^ ((t as u64 + 1).wrapping_mul(0xD1B54A32D192ED03)));
                     let f = std::fs::File::create(format!("{}/obs.{}.txt", dir, t)).unwrap();
@@ -72,30 +116,35 @@ fn main() {
                         let mut prev = 0u32;
                         let mut first = true;
                         for c in buf.iter_mut() {
-                            let line = observe_threaded(c, &mut prev, &mut first, &mut r);
+                            let line = observe_threaded(c, &mut prev, &mut first, &mut r, &slot);
                             writeln!(w, "{}", line).unwrap();
                             n += 1;
                         }
+                        if n % 4096 < 8 { let _ = w.flush(); }
                     }
                     w.flush().unwrap();
                 }).unwrap());
             }
             for h in hs { h.join().unwrap(); }
+            done.store(1, Ordering::SeqCst);
         }
         "run" => {
             let stdin = std::io::stdin();
-            let out = std::io::stdout();
-            let mut out = out.lock();
+            // stdout is not kept locked here: the watchdog must be able to print its HANG line
+            let mut out = std::io::stdout();
             let mut prev = 0u32;
             let mut first = true;
             let mut r = gen::Rng(0);
+            let slot = Arc::new(Slot { counter: AtomicU64::new(0), current: Mutex::new(String::new()) });
+            let done = Arc::new(AtomicU64::new(0));
+            watchdog(vec![slot.clone()], done.clone());
             for line in stdin.lock().lines() {
                 let line = line.unwrap();
                 let t = line.trim();
                 if t.is_empty() || t.starts_with('#') { continue; }
                 if t.starts_with("@thread") { first = true; prev = 0; continue; }
                 match ops::Case::parse(t) {
-                    Some(mut c) => { writeln!(out, "{}", observe_threaded(&mut c, &mut prev, &mut first, &mut r)).unwrap(); }
+                    Some(mut c) => { writeln!(out, "{}", observe_threaded(&mut c, &mut prev, &mut first, &mut r, &slot)).unwrap(); let _ = out.flush(); }
                     None => { writeln!(out, "# unparsable: {}", t).unwrap(); }
                 }
             }
